@@ -23,8 +23,9 @@ fn feedback_cfg() -> Cfg {
     c.n_out = (1, 3);
     c.n_bidir = (0, 1);
     c.allow_c = true;
-    c.allow_input_x = true;
-    c.max_x = 1;
+    // no X expansion here: how items group into evaluations (C05's business) is then just
+    // "1, or 3 for a row with C"
+    c.allow_input_x = false;
     // a virtual signal can turn a row into an error item; the caller goes on, and what later
     // expressions see must not be affected
     c.max_virtual = 1;
@@ -55,7 +56,6 @@ impl Property for C04 {
             "fresh-read",
             "ctor-refusal-due",
             "zx-read-error-seen",
-            "probe-after-mid-clock-write",
             "defaulting-driver",
             "overriding-driver",
             "probe-before-first-row",
@@ -235,8 +235,12 @@ impl Property for C04 {
                         if info.definite.contains(name) {
                             // a variable of that name is in scope: it takes precedence
                             out.class("shadowing-variable-probed");
+                            // Reported only if the device value is what was read instead: if the
+                            // probe shows neither the variable (per vars()) nor the device value,
+                            // vars() itself may be what is wrong (C18's business).
+                            let device_now = sig_index(name).and_then(|si| group_latest.iter().find(|(s, _)| *s == si).map(|(_, v)| *v));
                             if let Some(Some(vars)) = real.vars.get(i) {
-                                if vars.get(name) != Some(&shown) {
+                                if vars.get(name) != Some(&shown) && device_now == Some(OutVal::Val(shown)) {
                                     out.fail(
                                         "c04:variable-does-not-take-precedence",
                                         format!(
@@ -264,7 +268,14 @@ impl Property for C04 {
                                     out.class("fresh-read");
                                     nontrivial = true;
                                 }
-                                if shown != v {
+                                // if the crate itself says that a variable of this name is in
+                                // scope here (although none can be, by the scope rule), what was
+                                // read is that variable: a scoping matter (C01 / C18), not this
+                                // property's
+                                let crate_sees_variable = matches!(real.vars.get(i), Some(Some(vs)) if vs.contains_key(name));
+                                if shown != v && crate_sees_variable {
+                                    out.class("name-is-a-variable-for-the-crate");
+                                } else if shown != v {
                                     out.fail(
                                         "c04:stale-or-wrong-device-value",
                                         format!(
